@@ -4,7 +4,7 @@ asm(intel), asm_att(att), GNU as on each rendering in the matching mode.  Oracle
 independently and read by Syntax.Denote must denote the same instruction; b among the candidates of each rendering; what GNU
 as produces must decode (IA32Decode.tla) to the same instruction as b."""
 import json, random, collections
-from . import core, asmlib, asm_text, ia32space
+from . import core, asmlib, asm_text, ia32space, c03
 
 EMPTY_LINE = {'syn': 'intel', 'mn': '', 'pfx': [], 'ops': [], 'st': {'rc': 'lower', 'kc': 'upper', 'sp': 'canon'}}
 
@@ -52,8 +52,14 @@ def report(chk, recs, verdicts):
                 site = (rt.get('attexc') or {}).get('func', '')
             elif f['clause'] in ('C09.asm_intel', 'C09.asm_att') and f['why'] in ('reject', 'internal'):
                 site = ((rt.get('asm') if f['clause'] == 'C09.asm_intel' else rt.get('asm_att')) or {}).get('exc', {}).get('func', '')
-            key = {'clause': f['clause'], 'mn': (mn[0] if mn else '') if not site or f['clause'] == 'C09.att_renders' else '',
-                   'shape': shape(r['il']) if f['clause'] != 'C09.att_renders' else '', 'why': f['why'], 'site': site}
+            m0 = mn[0] if mn else ''
+            shp = c03.rshape(rt['text'])
+            if f['clause'] == 'C09.att_renders':
+                key = {'clause': f['clause'], 'mn': m0, 'shape': '', 'why': f['why'], 'site': site}
+            else:
+                # the mnemonic belongs to the class where the defect is per mnemonic (suffix / name tables, GNU as naming)
+                specific = f['why'] in ('mnemonic', 'size', 'opsize', 'operand_count') or f['clause'].startswith('C09.gas_')
+                key = {'clause': f['clause'], 'mn': m0 if specific else '', 'shape': shp, 'why': f['why'], 'site': site}
             chk.violation(key, {'bytes': r['h'], 'intel': rt['text'], 'att': rt['att'], 'att_exception': rt.get('attexc'),
                                 'asm_intel': r['ai']['c'][:6], 'asm_att': r['aa']['c'][:6], 'gas_intel': bytes(r['gi']).hex(), 'gas_att': bytes(r['ga']).hex()})
 
